@@ -177,6 +177,16 @@ class AccessMixin(object):
         return [(st, VFunc(m))]
       if m.is_classmethod:
         return [(st, VFunc(m, bound=VClass(cls)))]
+      if not v.exact and not self.spec_mode_static_dispatch():
+        impls = self.virtual_impls(cls, name, m)
+        if impls is not None:
+          out = []
+          for impl, owner, uids in impls:
+            s = st.fork()
+            s.assume(z3.Or(*[s.classof(v.t) == u for u in uids]))
+            if self.feasible(s):
+              out.append((s, VFunc(impl, bound=VRef(owner, v.t, elem=v.elem))))
+          return out
       return [(st, VFunc(m, bound=v))]
     owner, expr = cls.find_class_attr(name)
     if expr is not None:
@@ -197,6 +207,34 @@ class AccessMixin(object):
       self.safety(st, z3.BoolVal(False), 'attr', "'%s' object has no attribute '%s'" % (cls.name, name), node)
       return []
     raise Unsupported('attribute %s of %s: declare its shape' % (name, cls.name))
+
+  def spec_mode_static_dispatch(self):
+    return False
+
+  def virtual_impls(self, cls, name, m):
+    """Dynamic dispatch on an object whose static class has loaded subclasses overriding `name`:
+    [(implementation, narrowest common owner, [class uids])] or None when no subclass overrides it."""
+    groups = {}
+    for sub in self.ctx.registry.subclasses(cls):
+      impl = sub.find_method(name)
+      if impl is None or getattr(sub, 'is_abstract_class', False):
+        continue
+      groups.setdefault(id(impl), [impl, []])[1].append(sub)
+    if len(groups) <= 1 and not m.is_abstract:
+      only = list(groups.values())
+      if not only or only[0][0] is m:
+        return None
+    out = []
+    for impl, subs in groups.values():
+      if impl.is_abstract:
+        continue          # classes that leave it abstract cannot be instantiated
+      owner = subs[0]
+      for c in subs[0].mro():
+        if all(x.is_subclass_of(c) for x in subs):
+          owner = c
+          break
+      out.append((impl, owner, [x.uid for x in subs]))
+    return out
 
   def conf_value(self, st, name):
     key = 'CONF.' + name
@@ -255,7 +293,9 @@ class AccessMixin(object):
     return z3.If(idx < 0, idx + n, idx)
 
   def _subscript(self, st, c, k, node):
-    from pyvc.values import VSnap
+    from pyvc.values import VSnap, VSeq
+    if isinstance(c, VSeq):
+      return [(st, self.from_val(st, z3.Select(c.t, vv.as_intlike(k)), None))]
     if isinstance(c, VSnap):
       if c.how == 'dict':
         return [(st, self.from_val(st, z3.Select(c.b, self.to_val(st, k)), c.elem))]
@@ -301,6 +341,14 @@ class AccessMixin(object):
         return out
       self.safety(st, has, 'key', 'KeyError', node)
       return [(st, self.dict_load(st, c, k))]
+    if isinstance(c, VPyDict) and isinstance(k, VEnum):
+      out = []
+      for key, v in c.d.items():
+        if isinstance(key, tuple) and key[0] == 'enum' and key[1] == k.enum.name:
+          for s, hit in self.branch(st.fork(), k.t == key[2]):
+            if hit:
+              out.append((s, v))
+      return out
     if isinstance(c, VPyDict):
       ks = z3.simplify(k.t) if isinstance(k, VStr) else None
       if ks is not None and z3.is_string_value(ks):
